@@ -771,6 +771,9 @@ def c07_scenarios(role, ver):
                                            {"c": "send", "s": 2, "k": "q1", "id": 0}, {"c": "poll", "s": 2},
                                            {"c": "send", "s": 3, "k": "q2", "id": 0}, {"c": "poll", "s": 3},
                                            {"c": "in", "p": {"t": "puback", "id": 1}}]))
+    # S8 the oldest request was answered, a younger one is still pending: the inline slot of the io dispatcher
+    #    is free while its response queue is not empty
+    s.append(({}, [pub(q=1, id=1), pub(q=0), {"c": "complete", "j": 0, "o": "ok"}]))
     return s
 
 
@@ -1411,6 +1414,15 @@ def c20_extra(tier, rnd):
         runs.append(dict(cfg=dict(role="client", ver=ver, client_keep_alive=2),
                          cmds=[{"c": "in", "p": {"t": "connack", "rc": 0}}, {"c": "mark", "k": "expect_pings", "n": 2}] + [{"c": "sleep", "ms": 1000}] * 7,
                          src="client_ping"))
+        # client keep-alive pings while the send window is full (one unacknowledged QoS 1 publish, window 1) at a
+        # keep-alive tick, and after it was acknowledged: the pings must go on, once per period
+        runs.append(dict(cfg=dict(role="client", ver=ver, client_keep_alive=2, max_send=1),
+                         cmds=[{"c": "in", "p": dict({"t": "connack", "rc": 0}, **({"rm": 1} if ver == 5 else {}))},
+                               {"c": "mark", "k": "expect_pings", "n": 3},
+                               {"c": "send", "s": 1, "k": "q1", "id": 0}, {"c": "poll", "s": 1}]
+                              + [{"c": "sleep", "ms": 1000}] * 3 + [{"c": "ack", "n": 1}, {"c": "poll", "s": 1}]
+                              + [{"c": "sleep", "ms": 1000}] * 6,
+                         src="client_ping_busy"))
         # keep-alive 0 and a server override
         runs.append(dict(cfg=dict(role="server", ver=ver, ack_keep_alive=2),
                          cmds=[{"c": "in", "p": {"t": "connect", "ka": 20}}, {"c": "mark", "k": "expect_ka", "n": 500, "r": 3900}] + [{"c": "sleep", "ms": 1000}] * 5,
